@@ -216,7 +216,8 @@ DoPrint(s) ==
               \* {{ sw: includeIfExists("swinner"), e }}: the first argument renders a template that itself uses a
               \* SafeWriter ({{ "swi" | raw }}) and evaluates to true; both arguments go through sw
               w  == IF s.g = "arginc" THEN WriteAll(writer, <<"R:raw:swi", "R:" \o s.f \o ":true", ch>>, out, bufs)
-                    ELSE IF r.v = Nil THEN [out |-> out, bufs |-> bufs] ELSE WriteTo(writer, ch, out, bufs)
+                    ELSE IF r.v \in {Nil, ""} THEN [out |-> out, bufs |-> bufs]     \* nothing to print: no write at all
+                    ELSE WriteTo(writer, ch, out, bufs)
           IN out' = w.out /\ bufs' = w.bufs
        /\ IF s.g = "argfail"      \* {{ sw: e, fail() }}: e is written, then the next argument fails
           THEN Raise("func", s.id) /\ UNCHANGED frames
